@@ -57,7 +57,7 @@ def c12_decode(tier):
         m2 = dict(max_array=2, max_map=2, max_text=1, max_depth=3, max_total_entries=2, max_total_items=2)
         m3 = dict(max_array=1, max_map=3, max_text=1, max_depth=2, max_total_entries=3, max_total_items=1)
         nest = dict(max_array=4, max_nested_array=3, max_map=2, max_text=1, max_depth=6, max_total_entries=2,
-                    max_total_items=7, root_kinds=["Array"], root_lens=[3, 4],
+                    max_total_items=7, root_kinds=["Array"], root_lens=[3, 4], map_lens=[0, 2],
                     map_value_kinds=["Null", "Integer", "Bytes", "Array"])
     else:
         m2 = dict(max_array=3, max_map=3, max_text=2, max_depth=3, max_total_entries=3, max_total_items=3)
@@ -242,6 +242,8 @@ def c01(tier):
                      max_total_items={"CoseKdfContext": 13, "CoseKeySet": 3}.get(t, top + 4))
             if t == "CoseKdfContext":
                 p.update(max_map=0, max_total_entries=0, max_array=5)
+            if t in ("Header", "ProtectedHeader"):
+                p.update(max_text=2)         # two bytes: one multi-byte character reaches the text rules
         else:
             p = dict(max_array=top + 2, max_nested_array=4, max_map=2, max_text=2, max_depth=7, max_total_entries=2,
                      max_total_items={"CoseKdfContext": 15}.get(t, top + 8))
@@ -254,3 +256,9 @@ def c01(tier):
     lv = [1, 2, 4, 8, 16, 32] if tier == "quick" else [1, 2, 4, 8, 16, 32, 64, 128]
     jobs.append(("jobs_misc", "depth_job", dict(prop="C01", levels=lv, native_levels=2000)))
     return jobs
+
+
+def c19(tier):
+    import jobs_builder
+    steps = 3 if tier == "quick" else 4
+    return [("jobs_builder", "builder_job", dict(prop="C19", tname=t, steps=steps)) for t in sorted(jobs_builder.SPECS)]
